@@ -193,13 +193,31 @@ def quiet():
     return contextlib.redirect_stdout(io.StringIO())
 
 
-def simulate(sc, maxit=1, delta_z=4., toler=0.2):
-    """short REAL simulation; returns (zi, yi, zo, yo) and leaves the Model in sc.model"""
+class SimulationTimeout(Exception):
+    pass
+
+
+def simulate(sc, maxit=1, delta_z=4., toler=0.2, time_limit=None):
+    """short REAL simulation; returns (zi, yi, zo, yo) and leaves the Model in sc.model.  `time_limit` (s, main thread
+    only): raise SimulationTimeout when the integration does not finish (a simulation is only a source of states)"""
+    import signal
     from tamoc import stratified_plume_model
     m = stratified_plume_model.Model(sc.profile)
-    with quiet(), warnings.catch_warnings(), np.errstate(all='ignore'):
-        warnings.simplefilter('ignore')
-        m.simulate(sc.particles, sc.z0, sc.R, maxit=maxit, toler=toler, delta_z=delta_z, plots=False)
+
+    def on_alarm(signum, frame):
+        raise SimulationTimeout('stratified plume simulation exceeded %g s' % time_limit)
+    old_handler = None
+    if time_limit:
+        old_handler = signal.signal(signal.SIGALRM, on_alarm)
+        signal.setitimer(signal.ITIMER_REAL, float(time_limit))
+    try:
+        with quiet(), warnings.catch_warnings(), np.errstate(all='ignore'):
+            warnings.simplefilter('ignore')
+            m.simulate(sc.particles, sc.z0, sc.R, maxit=maxit, toler=toler, delta_z=delta_z, plots=False)
+    finally:
+        if time_limit:
+            signal.setitimer(signal.ITIMER_REAL, 0.)
+            signal.signal(signal.SIGALRM, old_handler)
     sc.model = m
     reset_heat_transfer(sc)
     return m.zi, m.yi, m.zo, m.yo
